@@ -126,7 +126,7 @@ def run(R, job):
         return core.HTMLDependency("d%d" % counter[0], "1.0")
 
     def scalar():
-        return r.choice([None, True, False, 3, 2.5, r.choice(STR), _jsx.jsx("JSX_" + r.choice(["a", "fn1", "Z"])), [1, "x", None], {"k": 1, "b": "v"}, ["n", [True, {"z": None}]], (0, 10), ("t", (1, 2)), {"range": (0, 1)}, [("a",)]])
+        return r.choice([None, True, False, 3, 2.5, r.choice(STR), _jsx.jsx("JSX_" + r.choice(["a", "fn1", "Z"])), [1, "x", None], {"k": 1, "b": "v"}, ["n", [True, {"z": None}]], (0, 10), ("t", (1, 2)), {"range": (0, 1)}, [("a",)], {"cb": _jsx.jsx("JSX_cb"), "n": 1}, [_jsx.jsx("JSX_a"), "s"], {"deep": {"f": _jsx.jsx("JSX_f")}}])
 
     def tag(d):
         kids = [child(d - 1) for _ in range(r.choice([0, 1, 2]))]
@@ -306,6 +306,18 @@ def run(R, job):
             rej = "other " + type(ex).__name__
         if rej is not (not ok):
             fails.append({"input": f"allowedProps=['alpha','b_c','onChange'], props={props}", "observed": f"rejected={rej}", "expected": f"rejected={not ok}"})
+    # the allow-list belongs to each created function, whatever was created before under the same name
+    Free = _jsx.jsx_tag_create("Twice")
+    Strict = _jsx.jsx_tag_create("Twice", allowedProps=["ok"])
+    Other = _jsx.jsx_tag_create("Twice", allowedProps=["different"])
+    for fn, props, ok in ((Free, {"anything": 1}, True), (Strict, {"ok": 1}, True), (Strict, {"anything": 1}, False), (Other, {"ok": 1}, False), (Other, {"different": 1}, True)):
+        checked += 1
+        try:
+            fn(**props); rej = False
+        except NotImplementedError:
+            rej = True
+        if rej is not (not ok):
+            fails.append({"input": f"jsx_tag_create('Twice', ...) created three times with different allow-lists; props={props}", "observed": f"rejected={rej}", "expected": f"rejected={not ok}"})
     try:
         _jsx.JSXTag("lower")
         fails.append({"input": "JSXTag('lower')", "observed": "accepted", "expected": "NotImplementedError (component names start with a capital letter)"})
